@@ -92,6 +92,22 @@ def make_case(seed, tier):
                                    'name': rng.choice(wi_names)},
                         'reset': rng.random() < 0.5}]
         case['settle'] = 30
+    elif rng.random() < 0.25 and any(
+            (t.get('body') or {}).get('kind') == 'async' and
+            t.get('with_items') for t in tasks):
+        # one asynchronous item is paused through the action-execution API
+        # while the others go on, and resumed later
+        a = rng.randint(10, 120)
+        case['ops'] = [
+            {'op': 'action_update', 'state': 'PAUSED', 'at_step': a,
+             'target': {'state': 'RUNNING', 'sync': False,
+                        'index': rng.randint(0, 3)}},
+            {'op': 'action_update', 'state': 'RUNNING',
+             'at_step': a + rng.randint(5, 150),
+             'target': {'state': 'PAUSED', 'index': 0}}]
+        case['auto_resume'] = 4
+        case['item_pause'] = True
+        case['settle'] = 30
     return case
 
 
@@ -327,7 +343,11 @@ def probes(case, res):
         'wi_with_concurrency': sum(
             1 for t in wi if (t['runtime_context'] or {}).get('concurrency')),
         'rerun_ok': sum(1 for o in res.ops_log if o['result'] and
-                        o['result'][0] == 'ok'),
+                        o['result'][0] == 'ok' and
+                        o['op']['op'] == 'rerun'),
+        'item_paused': sum(1 for o in res.ops_log if o['result'] and
+                           o['result'][0] == 'ok' and
+                           o['op'].get('state') == 'PAUSED'),
     }
 
 
